@@ -123,3 +123,109 @@ def replay_supercell(old_style):
         return {"reproduced": bool(bad), "input": {"supercell_matrix": S, "is_old_style": old_style}, "real_code": r,
                 "expected": "supercell lattice rows == S^T L"}
     return rp
+
+
+# ------------------------------------------------------------------ per-atom data: the same index function on every list
+def simple_supercell_replication(run):
+    """Supercell._get_simple_supercell: symbols, masses, magnetic moments and the atom map handed to PhonopyAtoms are all the
+    unit-cell lists with every element repeated len(lattice_points) times (the same index function), and a list that is
+    present in the unit cell is present in the supercell."""
+    mod = pyexec.load(CF)
+    m = mod.method("Supercell", "_get_simple_supercell")
+    for masses_given in (True, False):
+        for mag in ("none", "collinear", "noncollinear"):
+            tag = "[masses=%s,magmoms=%s]" % ("given" if masses_given else "None", mag)
+            pref = CF + ":Supercell._get_simple_supercell" + tag
+            captured = {}
+
+            def atoms_hook(ex, st, args, kwargs):
+                captured.update(kwargs)
+                return st.new(Record("PhonopyAtoms", dict(kwargs)))
+            ex = PyExec(mod, run.sink, pref, hooks={"new:PhonopyAtoms": atoms_hook}, opaque_unknown=True, split=True)
+            st = PState()
+            sym = Opaque("unitcell.symbols", idx=("base", "symbols"))
+            mas = Opaque("unitcell.masses", idx=("base", "masses")) if masses_given else None
+            if mag == "none":
+                mg = None
+            else:
+                mg = st.new(Record("ndarray", {"ndim": 1 if mag == "collinear" else 2}))
+                mg = Opaque("unitcell.magnetic_moments", idx=("base", "magmoms"))
+            ucell = st.new(Record("PhonopyAtoms", {"cell": mat3(st, "L"), "scaled_positions": Opaque("positions", idx=("base", "positions")),
+                                                   "symbols": sym, "masses": mas, "magnetic_moments": mg}))
+            Sm = mat3(st, "S", z3.Int)
+            self_ref = st.new(Record("Supercell", {"_is_old_style": True, "_supercell_matrix": Sm}))
+            multi = tuple(z3.Int("multi_%d" % i) for i in range(3))
+            n0 = len(run.sink.obls)
+            outs = ex.call_function(st, m, [ucell, multi, None], self_ref=self_ref, cls="Supercell")
+            if not captured:
+                raise CheckerError("_get_simple_supercell: PhonopyAtoms constructor call not found")
+            s_idx = getattr(captured.get("symbols"), "idx", None)
+            ok_sym = isinstance(s_idx, tuple) and s_idx[0] == "repeat" and s_idx[1] == ("base", "symbols")
+            run.sink.add(pref, "replication", [], z3.BoolVal(bool(ok_sym)), meta={"label": "symbols: every unit-cell entry repeated n_l times"})
+            cnt = s_idx[2] if ok_sym else None
+
+            def same(name, val, base, present):
+                if not present:
+                    good = val is None
+                    lab = "%s stays None" % name
+                else:
+                    i_ = getattr(val, "idx", None)
+                    good = isinstance(val, Opaque) and isinstance(i_, tuple) and i_[0] == "repeat" and i_[1] == ("base", base) and i_[2] == cnt
+                    lab = "%s: present and replicated with the same index function as the symbols" % name
+                run.sink.add(pref, "replication", [], z3.BoolVal(bool(good)), meta={"label": lab})
+            same("masses", captured.get("masses"), "masses", masses_given)
+            same("magnetic_moments", captured.get("magnetic_moments"), "magmoms", mag != "none")
+            am = outs[0][2][1] if outs and isinstance(outs[0][2], tuple) else None
+            ai = getattr(am, "idx", None)
+            run.sink.add(pref, "replication", [], z3.BoolVal(isinstance(ai, tuple) and ai[0] == "repeat" and isinstance(ai[1], tuple) and ai[1][0] == "arange" and ai[2] == cnt),
+                         meta={"label": "atom map == repeat(arange(n), n_l): same index function"})
+            run.functions.append({"file": CF, "function": "Supercell._get_simple_supercell" + tag, "line": m.lineno, "sha1": mod.sha(m),
+                                  "obligations": len(run.sink.obls) - n0})
+
+
+def trimmed_cell_reorder(run):
+    """TrimmedCell._run with positions_to_reorder: positions, symbols, masses, magnetic moments and extracted_atoms are all
+    reordered by the same index array (so the primitive/supercell maps built from extracted_atoms stay consistent)."""
+    mod = pyexec.load(CF)
+    m = mod.method("TrimmedCell", "_run")
+    for masses_given in (True, False):
+        for mag_given in (True, False):
+            tag = "[masses=%s,magmoms=%s]" % ("given" if masses_given else "None", "given" if mag_given else "None")
+            pref = CF + ":TrimmedCell._run" + tag
+            ids = Opaque("reorder indices")
+            base = {"pos": Opaque("trimmed_positions", idx=("base", "pos")), "sym": Opaque("trimmed_symbols", idx=("base", "sym")),
+                    "mas": Opaque("trimmed_masses", idx=("base", "mas")) if masses_given else None,
+                    "mag": Opaque("trimmed_magmoms", idx=("base", "mag")) if mag_given else None,
+                    "ext": Opaque("extracted_atoms", idx=("base", "ext")), "tab": Opaque("mapping_table")}
+            hooks = {"TrimmedCell._extract": lambda ex, st, args, kwargs: (base["pos"], base["sym"], base["mas"], base["mag"], base["ext"], base["tab"]),
+                     "TrimmedCell._get_reorder_indices": lambda ex, st, args, kwargs: ids,
+                     "super.__init__": _super_init}
+            ex = PyExec(mod, run.sink, pref, hooks=hooks, opaque_unknown=True, split=True)
+            st = PState()
+            cell = st.new(Record("PhonopyAtoms", {"cell": mat3(st, "L"), "scaled_positions": Opaque("positions"), "symbols": Opaque("symbols"),
+                                                  "masses": Opaque("masses"), "magnetic_moments": Opaque("magmoms")}))
+            self_ref = st.new(Record("TrimmedCell", {}))
+            n0 = len(run.sink.obls)
+            outs = ex.call_function(st, m, [cell, mat3(st, "A"), Opaque("positions_to_reorder"), True, z3.RealVal("1/100000")], self_ref=self_ref, cls="TrimmedCell")
+            done = 0
+            for (s2, fl, v) in outs:
+                rec = s2.heap[self_ref.id].attrs
+                if not rec.get("__initialised__"):
+                    continue
+                done += 1
+                want = lambda b: ("take", ("base", b), ids.id)    # noqa: E731
+                checks = [("scaled_positions", rec.get("scaled_positions"), "pos", True), ("symbols", rec.get("symbols"), "sym", True),
+                          ("masses", rec.get("masses"), "mas", masses_given), ("magnetic_moments", rec.get("magnetic_moments"), "mag", mag_given),
+                          ("extracted_atoms", rec.get("_extracted_atoms"), "ext", True)]
+                for name, val, b, present in checks:
+                    if not present:
+                        good = val is None
+                    else:
+                        # np.array(x) of the reordered value keeps its index function
+                        good = isinstance(val, Opaque) and (val.idx == want(b))
+                    run.sink.add(pref, "reorder", list(s2.pc), z3.BoolVal(bool(good)),
+                                 meta={"label": "%s reordered by the same index array as every other per-atom list" % name if present else "%s stays None" % name})
+            if not done:
+                raise CheckerError("TrimmedCell._run: no successful path")
+            run.functions.append({"file": CF, "function": "TrimmedCell._run" + tag, "line": m.lineno, "sha1": mod.sha(m),
+                                  "obligations": len(run.sink.obls) - n0})
